@@ -7,6 +7,21 @@ COMMON_TB = [
 ]
 
 PROPS = {
+    "C11": {
+        "lean_targets": ["BA.Props.C11"],
+        "harness": "c11",
+        "translators": ["extract_constants.py", "extract_methods.py", "spec_c11_to_rust.py"],
+        "trusted_base": COMMON_TB + [
+            "regex translator tools/extract_methods.py (enum Method, dispatch tables, first validate_immediate_caller_* of each handler, structural facts of fvm.rs/dispatch.rs/shared.rs); it fails loudly on unrecognised shapes and its output is cross-checked cell by cell by the exhaustive matrix on the real actors",
+            "runtime/src/runtime/fvm.rs (production runtime + trampoline) cannot be executed in the sandbox: tied structurally only (BA/Generated/FvmRuntime.lean); the matrix runs the actors on the vvm's implementation of the same validation rules (type/namespace mismatch exits SYS_ASSERTION_FAILED there, USR_FORBIDDEN in fvm.rs)",
+            "the hand-written specification table (BA/Props/C11.lean `spec`) is the reading of 'designated caller' per method; body guards of validate-any methods are proved in other properties' models and only exercised here",
+        ],
+        "assumptions": [
+            "callers are described to the model by what the runtime can observe: built-in code type (or none), the address expressions they equal in the receiver's state, f4 namespace",
+            "every cell is a top-level message (caller = origin); nested-call cells (caller != origin) are not enumerated",
+            "market.WithdrawBalance, miner.ChangeWorkerAddress, miner.PreCommitSectorBatch2 and miner.ExtendSectorExpiration2 query other actors before validating the caller (listed in specNotFirst); for them a rejected outsider may see an earlier error than forbidden",
+        ],
+    },
     "C16": {
         "lean_targets": ["BA.Props.C16"],
         "harness": "c16",
